@@ -768,6 +768,9 @@ func (e *Exec) pureFuncApp(full string, rs string, args []*Term) *Term {
 		}
 		e.emit("(declare-fun %s (%s) %s)", f, strings.Join(ss, " "), rs)
 	}
+	if len(args) == 0 {
+		return &Term{f, rs}
+	}
 	return App(rs, f, args...)
 }
 
